@@ -244,6 +244,40 @@ def ascent_slots(rng, idx):
             "prods": [{"lhs": l, "rhs": list(r_)} for l, r_ in prods]}
 
 
+def merged_brackets(rng, idx):
+    """two bracket contexts around a shared body (lookaheads of the body's reductions get merged by LALR / an
+    unsplit lane-table state): the `expected` list then has to be computed over the whole stack, through as many
+    reductions as the body is long (right-recursive lists)"""
+    a, b, c, d, x, y = TS[:6]
+    fam = rng.randrange(3)
+    if fam == 0:
+        prods = [("S", [a, "A", b]), ("S", [c, "A", d]), ("A", [x, "A"]), ("A", [x])]
+    elif fam == 1:
+        prods = [("S", [a, "A", b]), ("S", [c, "A", d]), ("A", [x]), ("A", [x, y])]
+    else:
+        prods = [("S", [a, "A", b]), ("S", [c, "A", d]), ("A", ["B", "A"]), ("A", ["B"]), ("B", [x]), ("B", [y, x])]
+    nts = ["S", "A"] + (["B"] if fam == 2 else [])
+    ts = [t for t in TS if any(t in r for _, r in prods)]
+    return {"id": "w%05d" % idx, "ts": ts, "nts": nts, "starts": ["S"], "bound": (7, 9),
+            "prods": [{"lhs": l, "rhs": list(r)} for l, r in prods]}
+
+
+def many_productions(idx, total=128):
+    """exactly `total` productions (counting the `__X = X` of both pub symbols): the table cell type is chosen
+    from the number of states / productions, 127/128 is where i8 ends"""
+    ts = TS[:5]
+    prods = [{"lhs": "S", "rhs": [ts[0]]}]
+    n = total - 3          # S's one alternative and the two start productions
+    k = 0
+    for x in ts:
+        for y in ts:
+            for z in ts:
+                if k < n:
+                    prods.append({"lhs": "K", "rhs": [x, y, z]})
+                    k += 1
+    return {"id": "v%05d" % idx, "ts": ts, "nts": ["S", "K"], "starts": ["S", "K"], "prods": prods, "bound": (3, 3)}
+
+
 def recovery_shapes(rng, idx):
     """grammars in which error recovery has to *reduce on the error lookahead* before it can shift `!`
     (a nullable or complete nonterminal directly in front of `!`), in list and bracket contexts"""
